@@ -695,6 +695,40 @@ class _LStub:
         return np.array([self, parent], dtype=object)
 
 
+def wrapper_reuse_job(interp, c, case):
+    """LineageSSASimulator.py_SimulateCellLineage called several times on ONE simulator object: every call works on a lineage and on
+    queues of its own (a returned lineage holds the cells of its own simulation only, earlier results are not touched)"""
+    ncalls, = case
+    L = interp.load("bioscrape.lineage")
+    sim = L.ns["LineageSSASimulator"]()
+    f = sim.__dict__["_f"]
+    seen = []
+
+    def stub_lineage(cells, tp):
+        # the C-level loop: adds one record per initial cell to whatever lineage / queues it is given
+        seen.append((f.get("lineage"), f.get("old_cell_states"), f.get("old_schnitzes"),
+                     None if f.get("lineage") is None else len(f["lineage"].schnitzes),
+                     None if f.get("old_cell_states") is None else len(f["old_cell_states"]),
+                     None if f.get("old_schnitzes") is None else len(f["old_schnitzes"])))
+        for x in cells:
+            if f.get("old_cell_states") is not None:
+                f["old_cell_states"].append(x)
+        return f.get("lineage")
+    f["SimulateCellLineage"] = stub_lineage
+    f["set_c_timepoints"] = lambda tp: None
+    f["intialize_single_cell_interface"] = lambda itf: None
+    outs = []
+    for k in range(ncalls):
+        outs.append(sim.py_SimulateCellLineage(np.array([0, 1, 2], dtype=object), [object()], None))
+    ok = len(seen) == ncalls and all(s_[0] is not None and s_[3] == 0 and s_[4] == 0 and s_[5] == 0 for s_ in seen) \
+        and len({id(s_[0]) for s_ in seen}) == ncalls and len({id(s_[1]) for s_ in seen}) == ncalls and len({id(s_[2]) for s_ in seen}) == ncalls \
+        and all(o is s_[0] for o, s_ in zip(outs, seen))
+    ok = c.prove(ok, "[wrapper] each of %d calls on one simulator object starts from an empty lineage and empty queues of its own and returns that lineage" % ncalls,
+                 info={"sig": "lineage wrapper keeps state between calls", "what": "py_SimulateCellLineage called %d times on one simulator" % ncalls})
+    if ok is False:
+        c.failures[-1]["replay"] = {"kind": "lineage_reuse"}
+
+
 def lineage_interface_job(interp, c, case):
     """LineageCSimInterface on a model of recording stubs: every index (propensity slot, rule, event, division code) addresses
     the object the model's definition order assigns to it"""
@@ -777,6 +811,7 @@ def check(tier):
     ck.add("entry-end-to-end", "harness.C19", "entry_job", dict(cases=[(3,), (4,)]), fresh=True)
     for cse in [(2, 2, 2, 2, 2, 2, 2, 1), (1, 1, 1, 1, 0, 0, 1, 2)] + ([(2, 1, 0, 3, 1, 1, 0, 1), (2, 2, 3, 0, 2, 2, 3, 0)] if tier == "thorough" else []):
         ck.add("lineage-interface/%s" % "-".join(map(str, cse)), "harness.C19", "lineage_interface_job", dict(cases=[cse]))
+    ck.add("lineage-wrapper-reuse", "harness.C19", "wrapper_reuse_job", dict(cases=[(1,), (2,), (3,)]))
     qs = [(1, 0, 2, 1), (2, 0, 3, 2), (2, 1, 3, 1), (3, 1, 3, 1)] + ([(3, 2, 4, 2), (4, 0, 4, 3), (4, 3, 4, 1)] if tier == "thorough" else [])
     for q in qs:
         ck.add("lineage-queue/n%d/pos%d/T%d" % q[:3], "harness.C19", "lineage_queue_step", dict(cases=[q]))
